@@ -24,6 +24,7 @@ SPEC_MODULES = {
     "C11": ["specs.c11_condition"],
     "C12": ["specs.c12_memory"],
     "C13": ["specs.c12_memory"],
+    "C16": ["specs.c16_buffered"],
 }
 
 
